@@ -140,6 +140,18 @@ func (c10) Gen(seed uint64, tier string) *Scenario {
 			}
 			touched++
 			q := "`" + t.Name + "`"
+			if r.Bool(0.35) {
+				// other ways of touching the table first in its transaction: whatever handler and cached view the
+				// opener leaves, the COMMIT that follows must still go through a temp file and a rename
+				m.Stmts = append(m.Stmts, r.PickS(
+					fmt.Sprintf("CREATE TABLE IF NOT EXISTS %s (id, n, s);", q),
+					fmt.Sprintf("CREATE TABLE IF NOT EXISTS %s (id, n, s);", q),
+					fmt.Sprintf("SELECT COUNT(*) FROM %s;", q),
+					fmt.Sprintf("SELECT id FROM %s WHERE id < 0 FOR UPDATE;", q),
+					fmt.Sprintf("SHOW FIELDS FROM %s;", q),
+					fmt.Sprintf("DECLARE oc%d CURSOR FOR SELECT id FROM %s; OPEN oc%d; CLOSE oc%d; DISPOSE CURSOR oc%d;", i, q, i, i, i),
+					fmt.Sprintf("UPDATE %s SET n = n WHERE id < 0;", q)))
+			}
 			switch r.Intn(8) {
 			case 4:
 				// statements that rebuild the whole table or change how it is written
